@@ -84,5 +84,5 @@ Proof.
 Qed.
 Example ex_restore :
   show_view (restore 1700000000000 PreEmpty (f_all (a_log (aof_run EverySec aof_fresh ex_h)))) =
-  "mem=* db0{73=S{78}@0 7a=z{6d:3/2}@0} db2{6c=l[61,62]@0 6e=s31@0} db12{68=h{66:i1}@0 6b=s7631@0}".
+  "mem=* db0{73=S{78}@0 7a=z{6d:3/2}@0} db2{6c=l[61,62]@0 6e=i1@0} db12{68=h{66:i1}@0 6b=s7631@0}".
 Proof. vm_compute. reflexivity. Qed.
